@@ -302,3 +302,10 @@ def sep(ex, st, elist):
         z3.ForAll([k1, k2], z3.Implies(z3.And(dd[I][k1], dd[I][k2], k1 != k2), dv[I][k1] != dv[I][k2])),
         z3.ForAll([k1, k2], z3.Implies(z3.And(dd[T][k1], dd[T][k2], k1 != k2), dv[T][k1] != dv[T][k2])),
     ), BOOL)
+
+
+@specfunc('is_fresh')
+def is_fresh(ex, st, x):
+    """x was allocated during the call (postconditions only)"""
+    pre = ex.spec_ctx['pre']
+    return SV(ex.term(x, 'R') >= ex.H(pre, 'next'), BOOL)
